@@ -5,10 +5,11 @@ From Coq Require Import Lia ZifyN ZifyNat ZifyBool Permutation.
 
 Lemma good_unfold : forall cfg p f ph, from_cfg cfg p -> eff_fam (fst p) = f -> good p ph ->
   exists g c, In g cfg /\ In c (group_cidrs g) /\ contains c f (be_to_N (p_bytes ph)) /\
-              blen (p_bytes ph) * 8 = bits f /\ p_rand_port ph = rand_port g.
+              (blen (p_bytes ph) * 8 = bits f /\ ip_is4 (p_bytes ph) = family_eqb f V4) /\
+              p_rand_port ph = rand_port g.
 Proof.
   intros cfg p f ph (g & Hg & Hc & Hr) Hf (H1 & H2 & H3). exists g, (fst p). subst f.
-  repeat split; try assumption; try apply H1. congruence.
+  split; [exact Hg|]. split; [exact Hc|]. split; [exact H1|]. split; [exact H2|]. congruence.
 Qed.
 
 (* ---- parametric statement: any PRF, any math/rand source, any permutation as sorter ---- *)
@@ -20,7 +21,8 @@ Lemma selection_sound_parametric :
     (cfg = None -> exists e, select_gen hm src src_seed src_int63 sorter seed cfg lv f = Err e) /\
     forall c ph, cfg = Some c -> select_gen hm src src_seed src_int63 sorter seed cfg lv f = Ok ph ->
       exists g n, In g c /\ In n (group_cidrs g) /\ contains n f (be_to_N (p_bytes ph)) /\
-                  blen (p_bytes ph) * 8 = bits f /\ p_rand_port ph = rand_port g.
+                  (blen (p_bytes ph) * 8 = bits f /\ ip_is4 (p_bytes ph) = family_eqb f V4) /\
+                  p_rand_port ph = rand_port g.
 Proof.
   intros hm src src_seed src_int63 sorter Hperm seed cfg lv f. split; [|split].
   - apply select_gen_no_panic; assumption.
@@ -38,7 +40,8 @@ Proof.
   destruct (Hs cfg p eq_refl H) as (g & c & H1 & H2 & H3 & H4 & H5). exists g, c. auto.
 Qed.
 
-Lemma select_wellformed : forall seed cfg lv f p, select seed cfg lv f = Ok p -> blen (p_bytes p) * 8 = bits f.
+Lemma select_wellformed : forall seed cfg lv f p, select seed cfg lv f = Ok p ->
+  blen (p_bytes p) * 8 = bits f /\ ip_is4 (p_bytes p) = family_eqb f V4.
 Proof.
   intros seed [cfg|] lv f p H; [|discriminate].
   destruct (selection_sound_parametric hmac_sha256 alfg alfg_seed alfg_int63 isort_groups isort_groups_perm seed (Some cfg) lv f)
@@ -58,7 +61,8 @@ Lemma select_phantom_sound : forall seed cfg tr w,
   forall p, select_phantom seed cfg tr w = Ok p ->
     exists g c f, In g cfg /\ In c (group_cidrs g) /\ contains c f (be_to_N (p_bytes p)) /\
                   (forall f', tr = Some f' -> f = f') /\
-                  blen (p_bytes p) * 8 = bits f /\ p_rand_port p = rand_port g.
+                  (blen (p_bytes p) * 8 = bits f /\ ip_is4 (p_bytes p) = family_eqb f V4) /\
+                  p_rand_port p = rand_port g.
 Proof.
   intros seed cfg tr w. split; [apply select_phantom_gen_no_panic, isort_groups_perm|].
   intros p H. destruct (select_phantom_gen_good hmac_sha256 isort_groups isort_groups_perm _ _ _ _ _ H) as (q & H1 & H2 & H3).
